@@ -168,7 +168,7 @@ def check_request_url(ctx, scheme, server, host, root, path, query, odd=False):
 
 # ------------------------------------------------------------------ replace()
 USERS = [None, ("u", None), ("u", "p"), ("u", "p@ss:w"), ("u", ""), ("us.er", "x*y"), ("admin", "admin"), ("bob1", "bob"), ("h", "h")]  # also: password text inside the user / host text
-RHOSTS = ["h", "example.com", "10.0.0.1", "[::1]", "[2001:db8::1]"]
+RHOSTS = ["h", "example.com", "10.0.0.1", "[::1]", "[2001:db8::1]", "10.0.0.8", "host80", "[::80]"]  # also hosts that end in the port's digits
 RPORTS = [None, 80, 8080, 0]
 NEW = {"scheme": ["https", "ws"], "path": ["/n", "/n/é", ""], "query": ["", "k=v&k=w"], "fragment": ["", "top"],
        "username": [None, "v", "v.w"], "password": [None, "q", "a@b", "a:b", "********", "*", "S3CR3T!"],
